@@ -341,3 +341,57 @@ Proof.
 Qed.
 
 End MultiProofs.
+
+Section TrimCount.
+Variable H : bytes -> Z.
+
+Lemma remove_first_k : forall k L, inc L -> remove_offs L (firstn k (map moff L)) = skipn k L.
+Proof.
+  induction k as [|k IH]; intros L Hinc.
+  - cbn [firstn skipn]. unfold remove_offs. apply filter_all_true. intros; reflexivity.
+  - destruct L as [|x r]; [reflexivity|]. destruct Hinc as [Hx Hr]. cbn [map firstn skipn]. unfold remove_offs. cbn [filter].
+    assert (Hhd : zmem (moff x) (moff x :: firstn k (map moff r)) = true) by (apply zmem_in; now left).
+    rewrite Hhd. cbn [negb]. rewrite <- (IH r Hr). unfold remove_offs. apply filter_ext_in. intros y Hy.
+    unfold zmem. cbn [existsb]. specialize (Hx y Hy). destruct (moff y =? moff x) eqn:E; [lia|reflexivity].
+Qed.
+
+Lemma find_by_count_opened st max st1 offs : Inv st -> find_by_count H st max = Ok (st1, offs) -> opened st1 = opened st.
+Proof.
+  intros HI Ef. unfold find_by_count in Ef.
+  destruct (log_stat H st) as [[sa [[sg cnt] sz]]|] eqn:Es; [|discriminate]. cbn [bind] in Ef.
+  destruct (ReadsPreserve.log_stat_preserves H st sa _ HI Es) as (HIa & HAa & Hoa).
+  destruct (cnt <=? max); [injection Ef as <- _; exact Hoa|].
+  destruct (log_next_ok H sa HIa) as (sb & En & HIb & HAb & Hob). rewrite En in Ef. cbn [bind] in Ef.
+  match type of Ef with (do r3 <- ?sc; _) = _ => destruct sc as [[s3 a3]|] eqn:Esc; [|discriminate] end.
+  cbn [bind] in Ef. injection Ef as <- _. destruct (scan_loop_opened H _ _ _ _ _ _ _ _ _ HIb Esc) as (Hop & _). congruence.
+Qed.
+
+(* TrimByCountMulti: afterwards exactly the newest min(count, max) messages are left, untouched *)
+Theorem trim_by_count_spec c st max :
+  Inv st -> opened st = Some c -> cro c = false -> 0 <= max ->
+  exists st' del size,
+    trim_multi H (fun s => find_by_count H s max) st = (st', del, size, None) /\ Inv st' /\
+    anext (abs st') = anext (abs st) /\
+    let cnt := zlen (live (abs st)) in
+    live (abs st') = skipn (Z.to_nat (cnt - max)) (live (abs st)) /\
+    zlen (live (abs st')) = Z.min cnt max.
+Proof.
+  intros HI Hc Hro Hmax. destruct (find_by_count_spec H st max HI) as (st1 & Ef & HI1 & HA1). cbv zeta in Ef.
+  pose proof (find_by_count_opened st max st1 _ HI Ef) as Hop.
+  set (L := live (abs st)) in *. set (cnt := zlen L) in *.
+  destruct (live_facts st HI) as (Hinc & _). fold L in Hinc.
+  set (offs := if cnt <=? max then [] else firstn (Z.to_nat (cnt - max)) (map moff L)) in *.
+  assert (Hlive : forall o, In o offs -> exists m, In m L /\ moff m = o).
+  { intros o Ho. unfold offs in Ho. destruct (cnt <=? max); [contradiction|]. apply in_firstn in Ho. apply in_map_iff in Ho.
+    destruct Ho as (x & Ex & Hx). eauto. }
+  destruct (trim_multi_spec H c (fun s => find_by_count H s max) st st1 offs HI Hc Hro Ef HI1 HA1 ltac:(congruence) Hlive)
+    as (st' & del & size & E & HI' & An & Al & _).
+  exists st', del, size. split; [exact E|]. split; [exact HI'|]. split; [exact An|]. cbv zeta. fold L in Al. fold L. fold cnt.
+  assert (Hres : live (abs st') = skipn (Z.to_nat (cnt - max)) L).
+  { rewrite Al. unfold offs. destruct (cnt <=? max) eqn:Ec.
+    - replace (Z.to_nat (cnt - max)) with O by lia. cbn [skipn]. unfold remove_offs. apply filter_all_true. intros; reflexivity.
+    - now apply remove_first_k. }
+  split; [exact Hres|]. rewrite Hres. unfold zlen. rewrite skipn_length. unfold cnt, zlen. lia.
+Qed.
+
+End TrimCount.
